@@ -38,6 +38,9 @@ func graphSweep(c *Ctx, maxN int, thorough bool, emit func(g *gspec)) {
 			return
 		}
 		seen[key] = true
+		if !c.Unit() {
+			return
+		}
 		emit(g)
 	}
 	placesSmall := []int{0, 1, 2, 3, 4, 5, 7, 8, 9}
